@@ -876,6 +876,9 @@ func (w *World) epilogue() {
 	if p.Prop == "C06" {
 		w.refusalProbes(primary)
 	}
+	if p.Prop == "C17" {
+		w.evictBurst(primary)
+	}
 }
 
 func (w *World) unfinished(in *Instance) int {
